@@ -8,8 +8,8 @@ git -C /repo worktree add -q --detach "$WT" HEAD || exit 3
 cleanup() { git -C /repo worktree remove --force "$WT" 2>/dev/null; rm -rf "$WT"; }
 trap cleanup EXIT
 ORIG="/tmp/wt/${ID%_*}"
-ORIG2="/tmp/wt2/${ID%_*}"; ORIG3="/tmp/wt3/${ID%_*}"     # later rounds of sub-agent worktrees
-mkdir -p "$WT/_seedrun"; sed -e "s#$ORIG3#$WT#g" -e "s#$ORIG2#$WT#g" -e "s#$ORIG#$WT#g" "$S/demo.py" > "$WT/_seedrun/demo_$ID.py"
+ORIG2="/tmp/wt2/${ID%_*}"; ORIG3="/tmp/wt3/${ID%_*}"; ORIG4="/tmp/wt4/${ID%_*}"     # later rounds of sub-agent worktrees
+mkdir -p "$WT/_seedrun"; sed -e "s#$ORIG4#$WT#g" -e "s#$ORIG3#$WT#g" -e "s#$ORIG2#$WT#g" -e "s#$ORIG#$WT#g" "$S/demo.py" > "$WT/_seedrun/demo_$ID.py"
 echo 'collect_ignore_glob = ["*"]' > "$WT/_seedrun/conftest.py"
 run_demo() { (cd "$WT" && PYTHONPATH="$WT" timeout 600 /venv/bin/python "_seedrun/demo_$ID.py" > "$WT/_seedrun/out_$1.txt" 2>&1; echo $?); }
 CLEAN=$(run_demo clean)
